@@ -1,7 +1,6 @@
 from __future__ import annotations
 
 import asyncio
-import inspect
 import sys
 from collections.abc import Iterator
 import random
@@ -103,8 +102,8 @@ def dict_depth(d: dict) -> int:
 
 async def aiterate(iterable: AsyncIterable[T] | Iterable[T]) -> AsyncIterator[T]:
     """Iterate either an async iterable or a regular iterable"""
-    if inspect.isasyncgen(iterable):
-        async for item in iterable:
+    if hasattr(iterable, "__aiter__"):
+        async for item in cast(AsyncIterable, iterable):
             yield item
     else:
         for item in cast(Iterable, iterable):
